@@ -365,7 +365,7 @@ func runC01m(rc *RunCtx) {
 	}
 	// secrets are arbitrary strings: blanks at either end, quotes, a '#', non-ASCII
 	if G.Draw(3) == 0 {
-		odd := []string{"trailing blank ", " leading blank", "\ttab and \"quote\"", "hash # colon: dash -", "пароль", "  "}
+		odd := oddSecrets
 		for n := 1 + G.Draw(2); n > 0; n-- {
 			sec := odd[G.Draw(len(odd))]
 			keys = append(keys, mkKey(fmt.Sprintf("odd-secret-%d", n), cipherNames[G.Draw(4)], sec))
@@ -441,3 +441,7 @@ func runC01m(rc *RunCtx) {
 	simrt.Quiesce()
 	rc.Phase = "done"
 }
+
+// oddSecrets: secrets are arbitrary strings.
+var oddSecrets = []string{"trailing blank ", " leading blank", "\ttab and \"quote\"", "hash # colon: dash -", "пароль", "  ",
+	"Nf4$Qm8xT1", "pa$$w0rd", "${HOME}x$", "back\\slash \\n", "{{curly}} %d %s", "'single' & <angle>"}
